@@ -50,25 +50,45 @@ def findings():
 
 
 def seeded():
-    out = ["| id | property | breaks / needs (from the agent's notes) | demo without / with | suite at baseline | detected by `./check` (quick) |", "|---|---|---|---|---|---|"]
-    for d in sorted(glob.glob(os.path.join(here, "seeded", "*"))):
+    hist = {}
+    hp = os.path.join(here, "seeded", "HISTORY.json")
+    if os.path.exists(hp):
+        hist = json.load(open(hp))
+    out = ["| id | round | code changed (file: enclosing definitions of the hunks) | demo without / with | suite at baseline | first run of `./check` | now (`./check --tier quick`, first VIOLATION line) |",
+           "|---|---|---|---|---|---|---|"]
+    n_first = n_now = n = 0
+    for d in sorted(glob.glob(os.path.join(here, "seeded", "C*-*"))):
         mp = os.path.join(d, "meta.json")
         if not os.path.exists(mp):
             continue
         m = json.load(open(mp))
-        notes = ""
-        np_ = os.path.join(d, "NOTES.md")
         sid = os.path.basename(d)
-        n = sid.split("-")[1]
-        if os.path.exists(np_):
-            txt = open(np_).read()
-            # first paragraph that talks about this change
-            mm = re.search(r"(?is)change\s*" + n + r"\b(.{0,700})", txt)
-            notes = re.sub(r"\s+", " ", mm.group(1) if mm else txt[:400])[:330].replace("|", "/")
-        det = "yes" if m.get("detected") else ("**no** — " + m.get("detected_by_other_check", "missed")[:160] if not m.get("detected") else "")
+        sites = {}
+        cur = None
+        for line in open(os.path.join(d, "patch.diff"), errors="replace"):
+            if line.startswith("+++ b/"):
+                cur = line[6:].strip()
+                sites.setdefault(cur, [])
+            elif line.startswith("@@") and cur:
+                ctxt = line.split("@@")[-1].strip()
+                mm = re.match(r"(?:async )?(?:def|class) (\w+)", ctxt)
+                if mm and mm.group(1) not in sites[cur]:
+                    sites[cur].append(mm.group(1))
+        site = "; ".join(f"`{f.replace('esrally/', '')}`: {', '.join(v) if v else 'module level'}" for f, v in sites.items())
+        h = hist.get(sid, {})
+        first = "detected" if h.get("first_run_detected", True) else "**missed**" + (" — " + h["first_run_note"] if h.get("first_run_note") else "")
         if m.get("check_exit") == 2:
-            det = "harness error (exit 2)"
-        out.append(f"| {sid} | {m['property']} | {notes} | {m.get('demo_exit_without_change')} / {m.get('demo_exit_with_change')} | {m.get('suite_at_baseline')} | {det}: {m.get('check_violation_lines', [''])[0][:70] if m.get('check_violation_lines') else ''} |")
+            now = "harness error (exit 2)"
+        elif m.get("detected"):
+            now = "detected: " + (m.get("check_violation_lines") or [""])[0].replace("VIOLATION property=" + m["property"] + " replay=replays/", "")[:60]
+        else:
+            now = "**missed**" + (" — " + m["detected_by_other_check"][:200] if m.get("detected_by_other_check") else "")
+        n += 1
+        n_first += bool(h.get("first_run_detected", True))
+        n_now += bool(m.get("detected"))
+        out.append(f"| {sid} | {m.get('round', 1)} | {site} | {m.get('demo_exit_without_change')} / {m.get('demo_exit_with_change')} | {m.get('suite_at_baseline')} | {first} | {now} |")
+    out.append("")
+    out.append(f"{n} confirmed seeded changes; {n_first} detected by the check as it stood when the change arrived, {n_now} detected by the current checks.")
     return "\n".join(out)
 
 
